@@ -38,6 +38,13 @@
 (*              instead of by the connect having completed                 *)
 (*     "errkeep" a transaction answered by an ERROR packet is not finished: *)
 (*              its datagram keeps being retransmitted                     *)
+(*     "connkeep" the connect transaction stays registered until the run    *)
+(*              loop has handled the connect result: a DUPLICATE of the    *)
+(*              connect reply that arrives in between is matched again     *)
+(*              (second SetResponse: close of a closed channel)            *)
+(* and one seeded fault of the periodic announcer (.._ev_mut_recomplete.cfg): *)
+(*     "recomplete" a "completed" whose announce ended without an accepted *)
+(*              reply stays pending and is sent again by the retry         *)
 (*                                                                         *)
 (* Trace_Announce.tla drives the MONITOR with events recorded from the     *)
 (* real code (harness/c15, harness/c16); the machine variables are idle    *)
@@ -306,8 +313,10 @@ NMem(t) == Len(cfg.ann[t].ks)
 Asis(x) == x \in cfg.asis
 IVals == cfg.ivals                 \* interval / min interval values a reply may carry (0 = absent)
 
-An0 == [st |-> "none", carm |-> FALSE, has |-> FALSE, iv |-> 0, miv |-> 0, need |-> FALSE, tmr |-> FALSE, gap |-> 0]
-NoConn == [st |-> "none", owner |-> 0, id |-> 0]
+\* pend: (seeded fault "recomplete" only) the "completed" event has not been acknowledged by a tracker yet
+An0 == [st |-> "none", carm |-> FALSE, has |-> FALSE, iv |-> 0, miv |-> 0, need |-> FALSE, tmr |-> FALSE, gap |-> 0, pend |-> FALSE]
+\* ans: the connect reply has ARRIVED at the transport (transaction answered), the run loop has not handled the result yet
+NoConn == [st |-> "none", owner |-> 0, id |-> 0, ans |-> FALSE]
 \* transport.go requestC branch: an announce is sent at once iff the destination's connect has COMPLETED (connectedAt set);
 \* otherwise it waits in the connection's request list, which is flushed exactly once, when the connect ends
 Established(c) == IF Asis("connid0") THEN c.st # "none" /\ c.id # 0 ELSE c.st = "connected"
@@ -346,7 +355,7 @@ SendRq(t, ev, rq0, uc0, ix0) ==
         udp == cfg.trk[k].udp
         ph == IF udp /\ ~Established(uc0[k]) THEN "conn" ELSE "sent"
     IN /\ rq' = rq0 \cup {[t |-> t, k |-> k, li |-> li, ev |-> ev, ph |-> ph, err |-> ""]}
-       /\ uc' = IF udp /\ uc0[k].st = "none" THEN [uc0 EXCEPT ![k] = [st |-> "connecting", owner |-> t, id |-> 0]] ELSE uc0
+       /\ uc' = IF udp /\ uc0[k].st = "none" THEN [uc0 EXCEPT ![k] = [st |-> "connecting", owner |-> t, id |-> 0, ans |-> FALSE]] ELSE uc0
        /\ idx' = ix0
 
 \* the monitor sees the announce (design level: at the moment it is issued; announcer a = torrent t)
@@ -372,9 +381,12 @@ Fire(t) ==                                        \* case <-timer.C
     /\ IF an[t].st = "contacting"
        THEN /\ an' = [an EXCEPT ![t].tmr = FALSE]
             /\ UNCHANGED <<rq, uc, idx, mon, mt, viol>>
-       ELSE /\ an' = [an EXCEPT ![t].tmr = FALSE, ![t].st = "contacting"]
-            /\ SendRq(t, "none", rq, uc, idx)
-            /\ Observe(t, "none", idx, an[t].gap, mon, mt)
+       \* the timer-driven announce carries NO event - also when the announce that carried "completed" ended without an
+       \* accepted reply (error, timeout, lost or undecodable reply): the tracker may have counted it, "completed" is sent once
+       ELSE LET ev == IF an[t].pend THEN "completed" ELSE "none" IN
+            /\ an' = [an EXCEPT ![t].tmr = FALSE, ![t].st = "contacting"]
+            /\ SendRq(t, ev, rq, uc, idx)
+            /\ Observe(t, ev, idx, an[t].gap, mon, mt)
     /\ UNCHANGED <<cfg, mk, tor, up>>
 
 FireSend(t) == Fire(t) /\ an[t].st # "contacting"
@@ -394,7 +406,7 @@ Complete(t) ==                                    \* checkCompletion: close(comp
 
 AnnComplete(t) ==                                 \* case <-a.completedC
     /\ tor[t].run /\ tor[t].done /\ an[t].carm
-    /\ an' = [an EXCEPT ![t].carm = FALSE, ![t].st = "contacting"]
+    /\ an' = [an EXCEPT ![t].carm = FALSE, ![t].st = "contacting", ![t].pend = Asis("recomplete")]
     /\ IF an[t].st = "contacting"
        THEN SendRq(t, "completed", CancelRq(t), CancelUc(t), idx)
        ELSE SendRq(t, "completed", rq, uc, idx)
@@ -434,7 +446,7 @@ SideEnd(r) ==
     /\ UNCHANGED <<cfg, mt, mk, viol, tor, an, up, uc>>
 
 \* result handling of Run: case resp := <-responseC / case err := <-errC
-Okd(x, iv, miv) == LET y == [x EXCEPT !.st = "working", !.iv = iv, !.miv = IF miv > 0 THEN miv ELSE @, !.has = TRUE]
+Okd(x, iv, miv) == LET y == [x EXCEPT !.st = "working", !.iv = iv, !.miv = IF miv > 0 THEN miv ELSE @, !.has = TRUE, !.pend = FALSE]
                    IN [y EXCEPT !.tmr = TRUE, !.gap = NextGap(y)]
 Failed(x) == [x EXCEPT !.st = "notworking", !.tmr = TRUE, !.gap = cfg.bo]
 
@@ -452,10 +464,25 @@ Reply(r) ==                                       \* the tracker answers a reque
             /\ idx' = Cas(idx, r.t, r.li)
     /\ UNCHANGED <<cfg, mt, mk, viol, tor, up, uc>>
 
-ConnStep(k) ==                                    \* the UDP connect transaction ends
+\* The connect reply ARRIVES (transport.go readC branch: the transaction is looked up, REMOVED from the map, SetResponse closes
+\* its done channel); the run loop handles the result later (connectDone branch = ConnStep).  Between the two the tracker - or
+\* the network - may deliver the same connect reply again, any number of times, back to back.
+ConnReply(k) ==
+    /\ uc[k].st = "connecting" /\ ~uc[k].ans /\ up[k]
+    /\ uc' = [uc EXCEPT ![k].ans = TRUE]
+    /\ UNCHANGED <<cfg, mvars, tor, an, rq, idx, up>>
+
+\* @obligation C16.reply.crash (design level)  a duplicated connect reply is a datagram with an unknown transaction id: ignored.
+\* (seeded fault "connkeep": the transaction is still registered, the duplicate is matched, SetResponse runs a second time)
+DupConnReply(k) ==
+    /\ uc[k].st = "connecting" /\ uc[k].ans
+    /\ viol' = IF viol # "" THEN viol ELSE IF Asis("connkeep") THEN "C16.reply.crash" ELSE ""
+    /\ UNCHANGED <<cfg, mon, mt, mk, xvars>>
+
+ConnStep(k) ==                                    \* the UDP connect transaction ends (connectDone branch)
     /\ uc[k].st = "connecting"
-    /\ IF up[k]
-       THEN /\ \E id \in cfg.cids : uc' = [uc EXCEPT ![k].st = "connected", ![k].id = id]   \* the tracker picks the id
+    /\ IF up[k] \/ uc[k].ans
+       THEN /\ \E id \in cfg.cids : uc' = [uc EXCEPT ![k].st = "connected", ![k].id = id, ![k].ans = FALSE]   \* the tracker picks the id
             /\ rq' = {IF r.k = k /\ r.ph = "conn" THEN [r EXCEPT !.ph = "sent"] ELSE r : r \in rq}
        ELSE /\ uc' = [uc EXCEPT ![k] = NoConn]
             /\ rq' = {IF r.k = k /\ r.ph = "conn" THEN [r EXCEPT !.ph = "cerr", !.err = "other"] ELSE r : r \in rq}
